@@ -67,6 +67,13 @@ pub fn run(v: &Value) -> Value {
     };
     let r = fmt::format_text(text, cfg);
     let mut res = json!({"out": r.output, "flags": r.flags, "err": r.err, "report": r.report});
+    if v["entries"].as_bool().unwrap_or(false) {
+        res["entries"] = json!(r.entries.iter().map(|e| json!([e.0, e.1, e.2, e.3])).collect::<Vec<_>>());
+        res["skipped"] = json!(r.skipped.iter().map(|e| json!([e.0, e.1])).collect::<Vec<_>>());
+        if let Some(out) = res["out"].as_str() {
+            res["out_classes"] = json!(rustfmt_nightly::verif_hooks::char_classes(out).into_iter().map(|(k, _)| k).collect::<Vec<_>>());
+        }
+    }
     if let Some(out) = res["out"].as_str().map(|s| s.to_owned()) {
         if v["again"].as_bool().unwrap_or(false) {
             let cfg2 = fmt::config_of(&v["config"]).unwrap();
